@@ -5,6 +5,15 @@ V = os.path.dirname(os.path.dirname(os.path.abspath(__file__)))
 props = [json.loads(l) for l in open(os.path.join(V, "properties.jsonl"))]
 
 CLAIMED = {
+ "C07": dict(cat="exploration", tech="grammar-aware token mutation of rule sources compiled under ASan; every compile call judged by TLC against ApiLifecycle!CompileOK (TLA+ contract); lifecycle model-checked",
+   text="ApiLifecycle.tla states the compile contract (ret > 0 iff an error callback with a message was delivered; ret = number of errors) and the object life cycle (model-checked: every outcome leaves the objects destroyable). TokenMut enumerates for every token position of every seed deletion, duplication, truncation, swap, replacement/insertion of a token of each class and character damage inside the token, plus 40 oversize/limit/include/strict-escape families; each mutant is compiled through add_string/add_file/add_fd/add_bytes in a process that also holds a healthy compiler, rule set and scanner which are re-checked; heap growth after destroying failed compilers is a violation.",
+   ref="5 C07, 6", note="memory safety over all byte strings is not decidable by a TLA+ spec: observed through ASan/UBSan where a scheduled mutant reaches the fault. Errors raised at end of input carry line 0 (accepted, see DESIGN corrections)."),
+ "C14": dict(cat="model_checking", tech="TLC model checking of HashRange.tla (digest cache coherence, range walk) + validation of every recorded call: addressed segments judged by HashRange!Addressed in TLC, value recomputed with hashlib/zlib on exactly those bytes",
+   text="HashRange.tla transcribes the range walk over memory blocks and models the digest cache with an uninterpreted digest; TLC checks CacheCoherent over all sequences of 3 calls x 2 algorithms x offsets/lengths -1..5 (a key without the algorithm or taken from the walked offsets violates it). On the library: per scan 3-10 calls of hash/math/string functions incl. re-requests of the same, adjacent and cross-algorithm ranges over single-block, multi-block and gapped layouts; results observed through console.log.",
+   ref="5 C14, 4.12", note="float statistics compared with tolerance 1e-5 outside the spec; serial_correlation / monte_carlo_pi / in_range exercised but not judged."),
+ "C15": dict(cat="model_checking", tech="limit cases at L-1/L/L+1/far judged by Limits.tla in TLC + match-cap isolation traces validated against Scan.tla (production and scaled builds) + measured timeout bound",
+   text="Limits.tla holds the documented limits and the documented outcome of exceeding each; every case (loop nesting, include depth, identifier length, lexer buffer, regexp repeat, integer literal, strings per rule at 3 settings, evaluation stack at 2 settings, regexp fibers with 3 bombs) is compiled/scanned under ASan and judged by LimitOK, followed by a recovery check on the same objects (RecoveredOK). The match cap is validated through Scan.tla traces (LimitIsolation) with the production constant (1,000,000 matches) and the scaled build (6). Five long-running rule shapes with a 1 s timeout are judged by TimeoutOK (slack 4 s) and the scanner is reused.",
+   ref="5 C15, 4.13", note="timeliness is measured (exploration-level for that clause); everything else discrete."),
  "C05": dict(cat="model_checking", tech="trace validation of rules compiled in company: every rule's observation judged by TLC against its own reference semantics (compositional oracle) + direct alone-vs-company comparison + source/include cuts",
    text="Rule sets of 4-14 cases from the text/hex/regex/condition generators plus noise rules built to share atoms, prefixes, suffixes and inner atoms with a backtrack, spread over 1-3 namespaces cut into several add-source calls, with a false global rule and same-prefix rules in a foreign namespace, shuffled; every rule x buffer is (i) compared with the rule compiled alone and (ii) judged by TLC against TextMatch/ReMatch/Cond. The same namespace text cut into all <=3 consecutive sources and nested includes must give the same rule table and results.",
    ref="5 C05, 4.6", note="the Aho-Corasick automaton model (AhoCorasick.tla, hooks H3/H4) is not built yet: independence is decided through the compositional oracle and the differential run."),
